@@ -430,6 +430,11 @@ impl Sys {
     /// rewrites the pool manager's storage the way a v1.2.0 deployment looked (pool records without a status, stored
     /// version 1.2.0), so that the real `migrate` entry point performs its v1.3.0 step
     pub fn downgrade_pool_manager_storage(&mut self) -> Result<usize, String> {
+        self.downgrade_pool_manager_storage_with(false)
+    }
+    /// `legacy_sorted`: the stored reserves are written in alphabetical denom order whatever the pool's own asset order is - the
+    /// state releases before the repair of F10 left behind after a deposit with a liquidity tolerance
+    pub fn downgrade_pool_manager_storage_with(&mut self, legacy_sorted: bool) -> Result<usize, String> {
         use cosmwasm_std::Order;
         use cw_storage_plus::Map;
         #[derive(serde::Serialize, serde::Deserialize)]
@@ -450,8 +455,12 @@ impl Sys {
             .map_err(|e| e.to_string())?;
         let old: Map<&str, OldPoolInfo> = Map::new("pools");
         for (k, p) in all.iter() {
+            let mut assets = p.assets.clone();
+            if legacy_sorted {
+                assets.sort_by(|a, b| a.denom.cmp(&b.denom));
+            }
             old.save(&mut *st, k, &OldPoolInfo { pool_identifier: p.pool_identifier.clone(), asset_denoms: p.asset_denoms.clone(), lp_denom: p.lp_denom.clone(),
-                asset_decimals: p.asset_decimals.clone(), assets: p.assets.clone(), pool_type: p.pool_type.clone(), pool_fees: p.pool_fees.clone() })
+                asset_decimals: p.asset_decimals.clone(), assets, pool_type: p.pool_type.clone(), pool_fees: p.pool_fees.clone() })
                 .map_err(|e| e.to_string())?;
         }
         let name = cw2::get_contract_version(&*st).map_err(|e| e.to_string())?.contract;
